@@ -1,5 +1,6 @@
 // harnesses over /repo/src/types.rs  (C11-H1, C16-H1)
 use std::io::Cursor;
+use crate::vh_common::okf;
 
 /// C11-H1: Range::matches == (lengths equal and number of common leading bits >= prefix length), for every base,
 /// address, length 0..=16 and prefix length 0..=255 (over-long prefixes included). Complete: no bound.
@@ -50,8 +51,8 @@ fn range_roundtrip(len: u8) {
         assert!(c.position() as usize == len as usize + 2);
     }
     assert!(buf[0] == len);
-    let back = Range::read_from(Cursor::new(&buf[..len as usize + 2]));
-    assert!(back.is_ok());
+    let back = okf(Range::read_from(Cursor::new(&buf[..len as usize + 2])));
+    assert!(back.is_some());
     let back = back.unwrap();
     assert!(back.base.len == len && back.prefix_len == prefix_len);
     let mut i = 0;
@@ -82,10 +83,10 @@ rr_inst!(c16_range_roundtrip_len00 = 0, c16_range_roundtrip_len01 = 1, c16_range
 /// is <= 16 and length byte + 2 bytes are present; on success the value reflects exactly those bytes
 fn range_decode_total(total: usize) {
     let bytes: [u8; 20] = kani::any();
-    let res = Range::read_from(Cursor::new(&bytes[..total]));
+    let res = okf(Range::read_from(Cursor::new(&bytes[..total])));
     let ok = total >= 1 && bytes[0] <= 16 && total >= bytes[0] as usize + 2;
-    assert!(res.is_ok() == ok);
-    if let Ok(r) = res {
+    assert!(res.is_some() == ok);
+    if let Some(r) = res {
         assert!(r.base.len == bytes[0]);
         assert!(r.prefix_len == bytes[1 + bytes[0] as usize]);
         let mut i = 0;
